@@ -424,6 +424,9 @@ def driveLocks (toks : List String) : String :=
     let missing := Locks.programEdges.filter (fun e => !seen.contains (name e.1 ++ ">" ++ name e.2))
     if missing.isEmpty then "R ok"
     else "R nesting-of-the-model-not-observed " ++ ",".intercalate (missing.map (fun e => name e.1 ++ ">" ++ name e.2))
+  | ["acks-after-shutdown", state] =>
+    -- `C13_draining_answers_everything`: once the queue is drained no handle is pending
+    if state == "resolved" then "R ok" else "R acknowledgements-never-answered-after-shutdown"
   | ["worker-after-shutdown", state] =>
     -- Layer A `WorkerMode.draining` / Layer B `WPc.drain` have no step that ends the worker: it answers every later
     -- command with ShuttingDown for as long as the cache lives
